@@ -9,8 +9,29 @@ TIE = ["Nsq.Tie.Restart"]
 PROPS = ["Nsq.Props.C05"]
 HARNESS = ["e5/replay_test.go", "e5/life_test.go", "e5/restart_test.go"]
 
-F9 = [("f9_pump_holds", "shutdown-while-pump-holds-message"),
-      ("f9_put_after_exit_check", "shutdown-while-publish-past-exit-check")]
+F9 = [("f9_pump_holds", "shutdown-while-pump-holds-message", None),
+      ("f9_put_after_exit_check", "shutdown-while-publish-past-exit-check", "barrier"),
+      ("exit_races_req", "shutdown-while-answer-in-progress:req", "anslock"),
+      ("exit_races_req_deferred", "shutdown-while-answer-in-progress:req-deferred", "anslock"),
+      ("exit_races_touch", "shutdown-while-answer-in-progress:touch", "anslock")]
+
+
+def tree_shape(ctx):
+    """Which windows the tree protects, read off the regenerated facts (the Lean side proves in
+    Tie.Restart that each fact has one of the two known shapes and defines `treeModel` the same way)."""
+    import re
+    try:
+        txt = open(os.path.join(ROOT, "lean", "Nsq", "Gen", "Restart.lean")).read()
+    except OSError:
+        return {}
+    def fact(name):
+        m = re.search(r"def %s : List String := \[(.*?)\]" % name, txt, re.S)
+        return re.findall(r'"([^"]*)"', m.group(1)) if m else []
+    shape = {"barrier": fact("topicExitHead")[:3] == ["Lock", "CompareAndSwapInt32", "Unlock"],
+             "anslock": fact("reqCalls")[:3] == ["RLock", "RUnlock", "popInFlightMessage"] and
+                        fact("touchCalls")[:3] == ["RLock", "RUnlock", "popInFlightMessage"]}
+    ctx.corr["race_model_of_tree"] = shape
+    return shape
 
 
 # crash-point schedules that must NOT lose anything on a correct tree
@@ -41,19 +62,24 @@ def replay_safe(ctx, binp):
 
 def replay_known(ctx, binp):
     res = {}
-    for name, key in F9:
+    shape = tree_shape(ctx)
+    for name, key, guard in F9:
         rc, kv, out = base.run_sched(ctx, binp, name, timeout=60)
         res[name] = kv or {"error": out[-300:]}
         if not kv:
             ctx.broken_ties.append("hook replay %s did not run (rc=%s)" % (name, rc))
             continue
         ctx.evaluations += 1
+        ctx.count_case("sched:" + name, nontrivial=True)
+        sched = open(os.path.join(ROOT, "corpus", "C05", "known", name + ".sched")).read()
+        obs = " ".join("%s=%s" % x for x in sorted(kv.items()))
         if kv.get("lost") == "true":
-            ctx.violation(key, "%s: %s" % (name, " ".join("%s=%s" % x for x in sorted(kv.items()))),
-                          open(os.path.join(ROOT, "corpus", "C05", "known", name + ".sched")).read())
+            # a tree whose facts say the window is protected must not lose: a different key, so that the
+            # open finding of the unprotected tree does not swallow it
+            k = key + (":despite-lock" if guard and shape.get(guard) else "")
+            ctx.violation(k, "%s: %s" % (name, obs), sched + "# observed: " + obs + "\n")
         elif kv.get("exit") != "ok":
-            ctx.violation("shutdown-blocked:" + name, "NSQD.Exit did not return in the %s schedule: %s" % (name, kv),
-                          open(os.path.join(ROOT, "corpus", "C05", "known", name + ".sched")).read())
+            ctx.violation("shutdown-blocked:" + name, "NSQD.Exit did not return in the %s schedule: %s" % (name, kv), sched)
     ctx.corr["hook_replays"] = res
 
 
@@ -188,9 +214,13 @@ def run(ctx):
         "scan_race_safe: the timeout scans hold exitMutex.RLock across 'out of the in-flight/deferred map … back on the "
         "queue' (tie scan_holds_exit_lock; replayed: exit_races_timeout_scan); persisted_ignores_exiting: GetMetadata does "
         "not consult exit flags (tie metadata_ignores_exit_flag; replayed: exit_races_pending_notify)",
-        "C05_partial: no publisher is between Topic.PutMessage's exitFlag test and its queue write and no consumer pump "
-        "holds a received, unregistered message while the three exit stages run; C05_full is false (C05_full_false), "
-        "both witnesses are replayed on the real code as known findings",
+        "C05_partial (tree without the repairs): no publisher is between Topic.PutMessage's exitFlag test and its queue "
+        "write, no consumer pump holds a received, unregistered message and no REQ/TOUCH is between popInFlightMessage "
+        "and its re-insertion while the three exit stages run; C05_full is false (C05_full_false); all five witnesses "
+        "are replayed on the real code as known findings",
+        "C05_fixed_partial / fixed_tree_loses_only_pump_window (tree with fixes/F17 + fixes/F18, selected by the ties "
+        "topic_exit_flag_shape / answers_exit_lock_shape): no consumer pump registers a message after its channel was "
+        "flushed (lateReg = []); C05_full_fixed is false (C05_full_fixed_false: the pump window stays open)",
         "ephemeral topics/channels are outside the property; a durable channel under an ephemeral topic is not restored "
         "(its files stay as orphans: C08 finding)",
     ]
